@@ -403,7 +403,7 @@ impl Engine for C16 {
         let (il, fl_) = if tier == Tier::Quick { (4, 3) } else { (5, 4) };
         Describe {
             level: "model_checking",
-            rule: format!("(1) every i64 sequence of length 0..{} over 17 values (0, +-1, the i8 / i16 / i32 delta boundaries, +-2^62, i64::MIN, i64::MIN+1, i64::MAX - so that deltas and second differences fall on every side of the layout thresholds and overflow i64), plus every length-4 sequence built from its differences (2 first values x 11 first differences x 17 x 17 second differences at the i8 / i16 / i32 boundaries: 6 358 sequences, every layout selected with values whose differences are NOT themselves boundary values), through QueryResponse::serialize / deserialize; (2) every f64 sequence of length 0..{} over 13 bit patterns (+-0, 1, next-after-1, -1, +-inf, two NaN payloads, the reserved NULL NaN, subnormal, f64::MAX, 0.1) x max_regret {{0,1,100}} x mantissa {{None, 0, 1, 12, 23, 51, 52}} through xor_float::double encode / decode (bit exact, or sign + exponent + requested mantissa bits); (3) every table of <= 3 rows x 1 column (and 2 columns with a rotating partner) over 9 cell values through the wire schema and the row API: serialize / deserialize equal, decoded rows equal the supplied rows; (4) 5 multi-column query responses of every column kind. Non-trivial: sequences of length >= 2; distinct by case.", il, fl_),
+            rule: format!("(1) every i64 sequence of length 0..{} over 17 values (0, +-1, the i8 / i16 / i32 delta boundaries, +-2^62, i64::MIN, i64::MIN+1, i64::MAX - so that deltas and second differences fall on every side of the layout thresholds and overflow i64), plus every length-4 sequence built from its differences (2 first values x 11 first differences x 17 x 17 second differences at the i8 / i16 / i32 boundaries: 6 358 sequences, every layout selected with values whose differences are NOT themselves boundary values), through QueryResponse::serialize / deserialize; (2) every f64 sequence of length 0..{} over 13 bit patterns (+-0, 1, next-after-1, -1, +-inf, two NaN payloads, the reserved NULL NaN, subnormal, f64::MAX, 0.1) x max_regret {{0,1,100}} x mantissa {{None, 0, 1, 12, 23, 51, 52}} (and every mantissa 0..52 x max_regret {{0,100}} for the sequences of length <= 2) through xor_float::double encode / decode (bit exact, or sign + exponent + requested mantissa bits); (3) every table of <= 3 rows x 1 column (and 2 columns with a rotating partner) over 9 cell values through the wire schema and the row API: serialize / deserialize equal, decoded rows equal the supplied rows; (4) 5 multi-column query responses of every column kind. Non-trivial: sequences of length >= 2; distinct by case.", il, fl_),
             assumptions: vec!["the row API widens an integer pushed into a float column (documented)".into(), "server-side column typing of mixed columns is exercised by C17".into()],
             bounds: json!({"int_alphabet": INT_ALPHA.len(), "int_max_len": il, "float_alphabet": float_alpha().len(), "float_max_len": fl_, "event_batches": event_batches().len()}),
             states_meaning: "distinct encoder inputs round-tripped",
@@ -471,6 +471,23 @@ impl Engine for C16 {
                     let bad = check_floats(&s, regret, *m);
                     let n = s.len();
                     record(out, "floats", n as u64, C16Case::Floats(s.clone(), regret, *m), bad, n >= 2);
+                }
+            }
+        }
+        // every mantissa setting 0..=52 for every sequence of length <= 2
+        for s in seqs(&fa, 2) {
+            idx += 1;
+            if idx % nshards != shard {
+                continue;
+            }
+            for regret in [0u32, 100] {
+                for m in 0..=52u32 {
+                    if mantissas.contains(&Some(m)) {
+                        continue;
+                    }
+                    let bad = check_floats(&s, regret, Some(m));
+                    let n = s.len();
+                    record(out, "floats", n as u64, C16Case::Floats(s.clone(), regret, Some(m)), bad, n >= 2);
                 }
             }
         }
